@@ -467,6 +467,50 @@ def rule_window_fresh(ctx):
     return r
 
 
+def rule_count_overflow(ctx):
+    """The strong and the weak count are 29-bit fields of one word, right below each other and below the WEAKED and
+    DESTRUCTED bits.  Handles can be leaked in safe code (mem::forget), so an increment that never looks at the value it
+    increments can carry into the neighbouring field: 2^29 leaked Weaks (1024 per weak_many call) set DESTRUCTED on a live
+    object (F19; std's Arc aborts at isize::MAX for the same reason)."""
+    r = RuleResult("CW-COUNT-OVERFLOW", ["C01", "C03", "C05"],
+                   "every function that adds to a count field bounds the value it increments (saturates, fails or aborts) "
+                   "before the field can carry into its neighbour")
+    fns = sorted(set(strong_adders(ctx)) | set(weak_adders(ctx)))
+    n = 0
+    for f in fns:
+        r.functions.add(f)
+        fields = set()
+        bounded = set()
+        for p in ctx.paths2(f):
+            if p.exit[0] == "diverge":
+                continue
+            r.paths += 1
+            for s in ctx.sites_on_path(p):
+                for fld in ("strong", "weak"):
+                    d = s["delta"].get(fld)
+                    if not d or d[0] <= 0 or s["outcome"] != "ok":
+                        continue
+                    # an increment made only from an observed zero (the token) cannot carry
+                    if any(q["S"] == s["observed"] and q["field"] == fld and q["rel"] == "==" and const_of(q["rhs"]) == 0
+                           for q in ctx.predicates(p)) and const_of(d[1]) is not None and const_of(d[1]) <= 2:
+                        continue
+                    fields.add(fld)
+                    for q in ctx.predicates(p):
+                        if q["field"] == fld and q["rel"] in ("<", "<=", ">", ">=") and (const_of(q["rhs"]) or 0) >= (1 << 16):
+                            bounded.add(fld)
+        for fld in sorted(fields):
+            n += 1
+            ok = fld in bounded
+            r.instance("%s bounds the %s count it increments" % (f.split("::")[-1], fld), ok)
+            if not ok:
+                r.violate(f, "unbounded:" + fld, "adds to the %s count without comparing the observed count with a bound: with "
+                          "2^29 leaked handles (safe code: mem::forget; 1024 at a time through weak_many / new_many) the "
+                          "field carries into its neighbour (weak -> WEAKED/DESTRUCTED, strong -> weak)" % fld,
+                          ctx.prog.body(f).loc(0))
+    r.require(n, 3, "incrementing functions")
+    return r
+
+
 def rule_cascade_foreign_guard(ctx):
     """pop_edges and Drop of the node under destruction are user code that has just run in this pass.  They can read the
     node's own links *now* - later than any reader that reached the node through the data structure - under a guard of
